@@ -1,4 +1,45 @@
-(* Model/DispatchC03.v — the timezone dispatch of Model/TzDispatch.v.  fn-table: TzDispatch *)
-From Coq Require Import ZArith List.
-From PV Require Import Model.TzDispatch.
-Definition dispatch (fn : Z) (args : list Z) : list Z := TzDispatch.dispatch fn args.
+(* Model/DispatchC03.v — the entries of Model/TzDispatch.v (same numbers and argument layout; repeated here because the extracted
+   entry point must be the only function named `dispatch`) plus the float route of `dt +/- timedelta` (Model/FloatRoutes.v).
+   A zone is passed as  init :: n :: t1 :: o1 :: ... ; a float as (tag, mantissa, exponent) = TdFloat.sf_code. *)
+From Coq Require Import ZArith List Bool.
+From Coq Require Import Floats.SpecFloat.
+From PV Require Import Lib.PyBase Spec.Cal Spec.Zone Spec.NativeDT Spec.TdFloat Gen.AddDuration Model.TzConvert Model.TzDispatch Model.FloatRoutes.
+Import ListNotations.
+Open Scope Z_scope.
+
+Definition out_naive (r : result (Z * bool)) : list Z :=
+  match r with Ok (W', f') => [0; W'; Z.b2z f'] | Raise e => [1; exn_code e] end.
+
+Definition dispatch (fn : Z) (args : list Z) : list Z :=
+  match parse_zone args with
+  | None => [9]
+  | Some (z, rest) =>
+    match fn, rest with
+    | 1 (* zone_probe *), [u; w] =>
+        [0; off_utc z u; Z.b2z (fold_utc z u); off_local z w false; off_local z w true; Z.b2z (wf_zone z); Z.b2z (wf2_zone z)]
+    | 2 (* create *), [fixed; W; f; r] => out_dt z (create z (zb fixed) W (zb f) (zb r))
+    | 4 (* add_fixed *), [W; f; h; m; s; us] => out_dt z (add_fixed z W (zb f) h m s us)
+    | 5 (* add_naive *), [W; f; y; mo; wk; d; h; m; s; us] =>
+        match add_naive W (zb f) y mo wk d h m s us with Ok (W', f') => [0; W'; Z.b2z f'] | Raise e => [1; exn_code e] end
+    | 6 (* add_calendar *), [fixed; W; y; mo; wk; d; h; m; s; us] => out_dt z (add_calendar z (zb fixed) W y mo wk d h m s us)
+    | 7 (* int_timestamp *), [W; f] => [0; int_timestamp z W (zb f)]
+    | 8 (* from_timestamp_int *), [isutc; n] => out_dt z (from_timestamp_int z (zb isutc) n)
+    | 9 (* add_duration *), [W; isdt; y; mo; wk; d; h; m; s; us] =>
+        match py_add_duration (mkndt W (zb isdt)) y mo wk d h m s us with Ok d' => [0; n_wall d'] | Raise e => [1; exn_code e] end
+    | 3 (* in_tz *), _ =>
+        match parse_zone rest with
+        | Some (z2, [same; W; f]) => out_dt z2 (in_tz (zb same) z z2 W (zb f))
+        | _ => [9]
+        end
+    | 20 (* add_timedelta *), [W; f; N] => out_dt z (add_timedelta z W (zb f) N)
+    | 21 (* sub_timedelta *), [W; f; N] => out_dt z (sub_timedelta z W (zb f) N)
+    | 22 (* add_timedelta_naive *), [W; f; N] => out_naive (add_timedelta_naive W (zb f) N)
+    | 23 (* sub_timedelta_naive *), [W; f; N] => out_naive (sub_timedelta_naive W (zb f) N)
+    | 24 (* float_route_us *), [t; m; e] =>
+        match float_route_us (sf_decode t m e) with Ok n => [0; n] | Raise ex => [1; exn_code ex] end
+    | 25 (* add_duration_float *), [W; t; m; e] =>
+        match add_duration_float (mkndt W true) (sf_decode t m e) with Ok d => [0; n_wall d] | Raise ex => [1; exn_code ex] end
+    | 26 (* add_seconds_float *), [W; f; t; m; e] => out_dt z (add_seconds_float z W (zb f) (sf_decode t m e))
+    | _, _ => [9]
+    end
+  end.
